@@ -1,7 +1,7 @@
 (** * Storage invariant (C01): the entity index and the table rows form a bijection,
       every table has its zero tail, and the primitive moves keep every other entity's
       data intact. *)
-From Arche Require Import Model.Base Model.Pool Model.Filter Model.World Model.Ops Proofs.Tables.
+From Arche Require Import Model.Base Model.Pool Model.Filter Model.World Model.Ops Proofs.Tables Proofs.PoolInv.
 
 Record store_ok (w : world) (live : list Entity) : Prop := {
   so_live_nodup : NoDup (map eid live);
@@ -480,3 +480,107 @@ Proof.
     apply find_index_Some_lookup in Hf as (x & Hx & Hex). apply Nat.eqb_eq in Hex. subst x.
     rewrite Hj in Hx. injection Hx as ->. congruence.
 Qed.
+
+(** ** Creating an entity *)
+Lemma pool_get_id p live issued frees :
+  Proofs.PoolInv.pool_inv p live issued frees ->
+  let '(p', e) := pool_get p in
+  (eid e = length (p_ents p) /\ length (p_ents p') = S (length (p_ents p))) \/
+  (eid e < length (p_ents p) /\ length (p_ents p') = length (p_ents p)).
+Proof.
+  intros I. unfold pool_get. destruct (p_avail p =? 0) eqn:Hav.
+  - cbn beta iota. left. simpl. rewrite app_length. simpl. split; [done|lia].
+  - apply Nat.eqb_neq in Hav.
+    destruct frees as [|i r]; [pose proof (Proofs.PoolInv.pi_frees_len _ _ _ _ I); simpl in *; lia|].
+    pose proof (Proofs.PoolInv.pi_frees_chain _ _ _ _ I) as Hc. simpl in Hc. destruct Hc as [Hn (link & g & Hl & _)].
+    rewrite Hn, Hl. right. simpl. rewrite insert_length. split; [by apply lookup_lt_Some in Hl|done].
+Qed.
+
+Section create.
+  Context (w : world) (live issued : list Entity) (frees : list nat) (tid : nat) (t : table) (nd : node).
+  Hypothesis S : store_ok w live.
+  Hypothesis P : Proofs.PoolInv.pool_inv (w_pool w) live issued frees.
+  Hypothesis Hil : length (w_index w) = length (p_ents (w_pool w)).
+  Hypothesis Ht : w_tables w !! tid = Some t.
+  Hypothesis Hnd : w_nodes w !! t_node t = Some nd.
+  Hypothesis Hcap : 0 < node_capinc w nd.
+
+  Theorem create_entity_ok :
+    let '(w', e) := create_entity w tid in
+    e ∉ live /\ e ∉ issued /\ store_ok w' (e :: live) /\
+    (exists frees', Proofs.PoolInv.pool_inv (w_pool w') (e :: live) (e :: issued) frees') /\
+    length (w_index w') = length (p_ents (w_pool w')) /\
+    w_nodes w' = w_nodes w /\ w_reg w' = w_reg w /\ w_tb w' = w_tb w /\ w_capinc w' = w_capinc w /\
+    (forall e', e' ∈ live -> ent_cells w' e' = ent_cells w e') /\
+    ent_cells w' e = Some (t_node t, t_target t, zero_row nd) /\
+    (forall tid' t', w_tables w !! tid' = Some t' -> exists t'', w_tables w' !! tid' = Some t'' /\ t_node t'' = t_node t').
+  Proof.
+    unfold create_entity. rewrite Ht, Hnd.
+    pose proof (Proofs.PoolInv.pool_get_inv (w_pool w) live issued frees P) as Hg.
+    pose proof (pool_get_id (w_pool w) live issued frees P) as Hid.
+    destruct (pool_get (w_pool w)) as [p e].
+    destruct Hg as (frees' & P' & Hfresh & He0 & _ & _).
+    destruct (so_table _ _ S tid t Ht) as (nd0 & Hnd0 & Hok). rewrite Hnd in Hnd0. injection Hnd0 as <-.
+    pose proof (tbl_alloc_spec (node_capinc w nd) (zero_row nd) t e Hcap Hok) as Ha.
+    destruct (tbl_alloc (node_capinc w nd) (zero_row nd) t e) as [t' row].
+    destruct Ha as (-> & Hte & Htok & (k & Htr) & Htz & Htn & Htt & Hta & Htl).
+    assert (Hnl : e ∉ live) by (intros Hin; apply Hfresh; by apply (Proofs.PoolInv.pi_live_issued _ _ _ _ P)).
+    assert (Hids : forall e0, e0 ∈ live -> eid e0 <> eid e /\ eid e0 < length (w_index w)).
+    { intros e0 He. split.
+      - intros Heq. pose proof (Proofs.PoolInv.pi_live_nodup _ _ _ _ P') as Hnd'. simpl in Hnd'.
+        apply NoDup_cons in Hnd' as [Hx _]. apply Hx. rewrite <- Heq. apply elem_of_list_fmap. by exists e0.
+      - destruct (so_loc _ _ S e0 He) as (? & ? & ? & Hl & _). unfold loc in Hl.
+        destruct (w_index w !! eid e0) eqn:Hx; [by apply lookup_lt_Some in Hx|done]. }
+    set (w1 := upd_table (w <| w_pool := p |>) tid t').
+    (* the world after the index update, in both branches *)
+    assert (Hw' : exists w', (if eid e =? length (w_index w1)
+              then (w1 <| w_index := w_index w1 ++ [Some (tid, tlen t)] |> <| w_tbits := w_tbits w1 ++ [false] |>, e)
+              else (w1 <| w_index := <[eid e := Some (tid, tlen t)]> (w_index w1) |> <| w_tbits := <[eid e := false]> (w_tbits w1) |>, e)) = (w', e) /\
+              w_tables w' = <[tid := t']> (w_tables w) /\ w_nodes w' = w_nodes w /\ w_pool w' = p /\
+              w_reg w' = w_reg w /\ w_tb w' = w_tb w /\ w_capinc w' = w_capinc w /\
+              loc w' e = Some (tid, tlen t) /\ (forall e0, e0 ∈ live -> loc w' e0 = loc w e0) /\
+              length (w_index w') = length (p_ents p)).
+    { change (w_index w1) with (w_index w). destruct (eid e =? length (w_index w)) eqn:Hfr.
+      - apply Nat.eqb_eq in Hfr. eexists. split; [reflexivity|]. simpl. repeat split; try done.
+        + unfold loc. simpl. rewrite lookup_app_r by lia. by rewrite Hfr, Nat.sub_diag.
+        + intros e0 He. destruct (Hids e0 He) as [_ Hlt]. unfold loc. simpl. by rewrite lookup_app_l.
+        + rewrite app_length. simpl. destruct Hid as [[_ Hl]|[Hlt Hl]]; lia.
+      - apply Nat.eqb_neq in Hfr. eexists. split; [reflexivity|]. simpl. repeat split; try done.
+        + unfold loc. simpl. rewrite list_lookup_insert; [done|]. destruct Hid as [[Hx _]|[Hlt _]]; lia.
+        + intros e0 He. destruct (Hids e0 He) as [Hne _]. unfold loc. simpl. by rewrite list_lookup_insert_ne.
+        + rewrite insert_length. destruct Hid as [[Hx _]|[_ Hl]]; lia. }
+    destruct Hw' as (w' & -> & Htabs & Hnodes & Hpool & Hreg & Htb & Hci & Hloce & Hloco & Hilen).
+    assert (Hlk : forall j, w_tables w' !! j = if decide (j = tid) then Some t' else w_tables w !! j).
+    { intros j. rewrite Htabs. by eapply lookup_insert_cases. }
+    split; [done|]. split; [done|]. split.
+    { split.
+      - apply (Proofs.PoolInv.pi_live_nodup _ _ _ _ P').
+      - intros e0 He. apply elem_of_cons in He as [->|He].
+        + exists tid, (tlen t), t'. split; [done|]. rewrite Hlk. destruct (decide (tid = tid)); [|done]. split; [done|].
+          rewrite Hte. rewrite lookup_app_r by (unfold tlen; lia). unfold tlen. by rewrite Nat.sub_diag.
+        + destruct (so_loc _ _ S e0 He) as (tid0 & row0 & t0 & Hl0 & Ht0 & Hr0). exists tid0, row0.
+          rewrite (Hloco e0 He), Hlk. destruct (decide (tid0 = tid)) as [->|].
+          * exists t'. rewrite Ht in Ht0. injection Ht0 as <-. split; [done|]. split; [done|]. rewrite Hte. by apply lookup_app_l_Some.
+          * by exists t0.
+      - intros tid0 t0 row0 e0 Ht0 Hr0. rewrite Hlk in Ht0. destruct (decide (tid0 = tid)) as [->|].
+        + injection Ht0 as <-. rewrite Hte in Hr0. apply lookup_app_Some in Hr0 as [Hr0|[Hge Hr0]].
+          * destruct (so_rows _ _ S tid t row0 e0 Ht Hr0) as [He Hl]. split; [apply elem_of_cons; by right|]. by rewrite (Hloco e0 He).
+          * destruct (row0 - length (t_ents t)) as [|k'] eqn:Hk; simpl in Hr0; [|done]. injection Hr0 as <-.
+            split; [apply elem_of_cons; by left|]. rewrite Hloce. f_equal. f_equal. unfold tlen. lia.
+        + destruct (so_rows _ _ S tid0 t0 row0 e0 Ht0 Hr0) as [He Hl]. split; [apply elem_of_cons; by right|]. by rewrite (Hloco e0 He).
+      - intros tid0 t0 Ht0. rewrite Hnodes. rewrite Hlk in Ht0. destruct (decide (tid0 = tid)) as [->|].
+        + injection Ht0 as <-. exists nd. by rewrite Htn.
+        + by apply (so_table _ _ S tid0 t0 Ht0). }
+    split; [exists frees'; by rewrite Hpool|]. split; [by rewrite Hpool|].
+    split; [done|]. split; [done|]. split; [done|]. split; [done|].
+    split.
+    { intros e0 He. destruct (so_loc _ _ S e0 He) as (tid0 & row0 & t0 & Hl0 & Ht0 & Hr0).
+      unfold ent_cells. rewrite (Hloco e0 He), Hl0. simpl. rewrite Hlk, Ht0. destruct (decide (tid0 = tid)) as [->|]; [|done].
+      rewrite Ht in Ht0. injection Ht0 as <-. simpl. rewrite Htr, lookup_app_l by (destruct Hok; apply lookup_lt_Some in Hr0; unfold tlen in *; lia).
+      destruct (t_rows t !! row0); simpl; [by rewrite Htn, Htt|done]. }
+    split.
+    { unfold ent_cells. rewrite Hloce. simpl. rewrite Hlk. destruct (decide (tid = tid)); [|done]. simpl. rewrite Htz. simpl. by rewrite Htn, Htt. }
+    intros tid0 t0 Ht0. rewrite Hlk. destruct (decide (tid0 = tid)) as [->|]; [|by exists t0].
+    exists t'. rewrite Ht in Ht0. injection Ht0 as <-. done.
+  Qed.
+End create.
